@@ -80,7 +80,7 @@ def main():
         roots = sorted(set(h['fn'] for hs in REGISTRY.values() for h in hs if h['unit'] == uname)) + list(u.get('extra_roots', ())) + list(u.get('coroutines', ()))
         return pipeline.build_unit(uname, os.path.join(VERIF, u['cpp']), roots, defines=u.get('defines', ()),
                                    sessions=u.get('sessions', 2), cuts=u.get('cuts', ()), inline_all=u.get('inline_all', False),
-                                   cdefs=u.get('cdefs', ()), all_hooks=u.get('all_hooks', False), coroutines=u.get('coroutines', ()),
+                                   cdefs=u.get('cdefs', ()), all_hooks=u.get('all_hooks', False), coroutines=u.get('coroutines', ()), nested=u.get('nested', False),
                                    extra_c=[os.path.join(VERIF, x) for x in u.get('extra_c', ())])
     with ThreadPoolExecutor(max_workers=a.jobs) as ex:
         futs = {ex.submit(build, n): n for n in need}
@@ -167,7 +167,10 @@ def main():
                 fl['reproduced'] = reproduced
                 if kf:
                     known_hits.append((kf[0], fl))
-                elif reproduced or reproduced is None and fl['description'].startswith(('fault:', 'cut:', 'bound:')):
+                elif fl['description'].startswith(('bound:', 'cut:')):
+                    # a modelling bound / cut of the harness was exceeded: that is a statement about the harness, not about yakushima
+                    inconclusive.append('%s: %s (model bound or cut reached; enlarge the bound or drop the cut)' % (h['fn'], fl['description']))
+                elif reproduced or reproduced is None and fl['description'].startswith(('fault:', 'liveness:')):
                     # fault:/cut: assertions live in the runtime model (throw, LOG(ERROR), spin): they are reported on the
                     # strength of the solver trace through the translated real code
                     violations.append((h, fl, rp))
